@@ -13,7 +13,9 @@ META = {
             "orig_trees/extra_trees (the pprint width rule), into files truncated at the start of the call. Three regions of shape_to_functions are verified: the renumbering loop (the k-th 'a' of a nullary tuple becomes a<k>, "
             "nothing else changes), the assembly of the label array (position p receives the label of its arity class in order of appearance, for every loop index triple; "
             "nothing is truncated by the fixed-width buffer; all_tree[pos] is a copy) and the work split (rank r rewrites exactly the positions of its split_idx slice). "
-            "get_allowed_shapes, the enumeration by itertools.product and the position counter of shape_to_functions are not under contract. Bounded stand-in on the real generation code (not counted as proved): (i) get_allowed_shapes(n) equals the independently enumerated Łukasiewicz-valid arity "
+            "get_allowed_shapes is verified for every complexity: its result contains every valid arity string over {0,1,2} of that length (completeness), only valid ones (soundness), "
+            "each once (distinctness) -- using check_tree only through its verified contract (including the new clause: on failure every string that starts with part_considered is invalid) and "
+            "lemmas about the validity counter proved from its definition. The enumeration of label tuples by itertools.product and the position counter of shape_to_functions are not under contract. Bounded stand-in on the real generation code (not counted as proved): (i) get_allowed_shapes(n) equals the independently enumerated Łukasiewicz-valid arity "
             "strings and check_tree decides validity of every arity string (exhaustive up to the stated n); (ii) the tree list written by "
             "generation equals, as a multiset, the independent enumeration of all labelled trees over the basis, for the six shipped bases and "
             "random sub-bases (through the ESR_VERIF hook) up to the stated complexity; line counts of all per-function files agree. "
@@ -30,6 +32,12 @@ def check(run):
                                            note="nested loops cut at invariants; ghost stack and ghost position function; records as struct of arrays")
     if dst != "unsupported" and D.canary(run, "generation/generator.py", "check_tree", c_generator.check_tree_contract) is False:
         raise RuntimeError("canary verified: engine vacuous on check_tree")
+    D.shape_lemma_library(run)
+    gst, gfailed, _ge = D.verify_function(run, "generation/generator.py", "get_allowed_shapes", c_generator.allowed_shapes_contract, timeout_ms=10000,
+                                          note="rank-0 branch; itertools.product / numpy row filters / masked stores through external models; check_tree through its verified contract restated "
+                                               "for a row of the candidate matrix (success <=> valid; on failure every row starting with part_considered is invalid: lemma L3)")
+    if gst != "unsupported" and D.canary(run, "generation/generator.py", "get_allowed_shapes", c_generator.allowed_shapes_contract) is False:
+        raise RuntimeError("canary verified: engine vacuous on get_allowed_shapes")
     wfailed, wsfailed, wfound = D.generation_writers(run, tier, with_bounded=False)
     sfailed_all = []
     for mk, tag, note in ((c_generator.stf_rename_contract, "rename", "region: body of the renumbering loop; one tuple as a heap list, ranks of the 'a' positions via the filter primitives"),
@@ -70,6 +78,9 @@ def check(run):
     if dfailed and not run.violations:
         from checks.C14 import report_unproved
         report_unproved(run, dfailed, False, "generator.check_tree")
+    if gfailed and not run.violations:
+        from checks.C14 import report_unproved
+        report_unproved(run, gfailed, False, "generator.get_allowed_shapes")
     if sfailed_all and not run.violations:
         from checks.C14 import report_unproved
         report_unproved(run, sfailed_all, False, "generator.shape_to_functions (regions rename / labels / slice)")
